@@ -171,16 +171,29 @@ def daysIn (y m : Nat) : Nat :=
   if m = 2 then (if (y % 4 = 0 ∧ y % 100 ≠ 0) ∨ y % 400 = 0 then 29 else 28)
   else if m = 4 ∨ m = 6 ∨ m = 9 ∨ m = 11 then 30 else 31
 
+/-- the two-digit year field as Go reads it: `time.Parse` hands the two characters to its `atoi`,
+    which accepts a sign — "-5" is the year -5 of the century, i.e. 1995 (seen on a mutated stream) -/
+def twoDigitYear (y0 y1 : UInt8) : Option Int :=
+  if isDigitB y0 && isDigitB y1 then some (dig2 y0 y1)
+  else if y0 == 43 && isDigitB y1 then some (y1.toNat - 48 : Nat)
+  else if y0 == 45 && isDigitB y1 then some (-((y1.toNat - 48 : Nat) : Int))
+  else none
+
+/-- the calendar year a two-digit year stands for (69..99 are 19yy, everything below is 20yy) -/
+def fullYear (yy : Int) : Int := if yy ≥ 69 then 1900 + yy else 2000 + yy
+
 /-- `time.Parse("060102150405.000", s)` succeeds -/
 def validDate (d : Bytes) : Bool :=
   match d with
   | [y0, y1, m0, m1, d0, d1, h0, h1, i0, i1, s0, s1, dot, f0, f1, f2] =>
-    [y0, y1, m0, m1, d0, d1, h0, h1, i0, i1, s0, s1, f0, f1, f2].all isDigitB && dot == 46 &&
-    (let yy := dig2 y0 y1
-     let y := if yy ≥ 69 then 1900 + yy else 2000 + yy
-     let m := dig2 m0 m1
-     let day := dig2 d0 d1
-     1 ≤ m && m ≤ 12 && 1 ≤ day && day ≤ daysIn y m && dig2 h0 h1 < 24 && dig2 i0 i1 < 60 && dig2 s0 s1 < 60)
+    [m0, m1, d0, d1, h0, h1, i0, i1, s0, s1, f0, f1, f2].all isDigitB && dot == 46 &&
+    (match twoDigitYear y0 y1 with
+     | none => false
+     | some yy =>
+       let y := (fullYear yy).toNat
+       let m := dig2 m0 m1
+       let day := dig2 d0 d1
+       1 ≤ m && m ≤ 12 && 1 ≤ day && day ≤ daysIn y m && dig2 h0 h1 < 24 && dig2 i0 i1 < 60 && dig2 s0 s1 < 60)
   | _ => false
 
 def typeRow (t : Tables) (ty : UInt8) : Option TypeRow :=
